@@ -17,9 +17,9 @@ from . import c12_model as M
 PID = 'C12'
 
 TIERS = {
-    'quick': {'f14_exh': 5, 'f14': 24, 'f15': 30, 'big_thin': 4, 'files': 24, 'multiconf': 6, 'f3': 80, 'f5': 40, 'f6': 'all', 'f9': 40, 'f10': 80, 'f11': 'all', 'opt_every': 3,
+    'quick': {'ter_files': 4, 'f14_exh': 5, 'f14': 24, 'f15': 30, 'big_thin': 4, 'files': 24, 'multiconf': 6, 'f3': 80, 'f5': 40, 'f6': 'all', 'f9': 40, 'f10': 80, 'f11': 'all', 'opt_every': 3,
               'chunk': 160, 'max_min': 3},
-    'thorough': {'f14_exh': 8, 'f14': 250, 'f15': 'all', 'files': 64, 'multiconf': 14, 'f3': 'all', 'f5': 300, 'f6': 'all', 'f9': 400, 'f10': 'all', 'f11': 'all', 'opt_every': 1,
+    'thorough': {'ter_files': 12, 'f14_exh': 8, 'f14': 250, 'f15': 'all', 'files': 64, 'multiconf': 14, 'f3': 'all', 'f5': 300, 'f6': 'all', 'f9': 400, 'f10': 'all', 'f11': 'all', 'opt_every': 1,
                  'chunk': 400, 'max_min': 5, 'full': 260, 'full_partial': 'all'},
 }
 OPTION_SETS = ([], ['--protonate-all'], ['-k'])
@@ -111,6 +111,28 @@ REJECTION_CASES = [
 ]
 
 
+def informative_ter(text):
+    """The workload fragments carry bare TER cards; deposited files carry the
+    full card (serial, residue name, chain, number).  Returns the text with
+    every bare TER replaced by the full card of the preceding record, or None
+    if no chain follows a TER (nothing would depend on the card)."""
+    out, prev, used, lines = [], None, False, text.splitlines()
+    for k, line in enumerate(lines):
+        if line.strip() == 'TER' and prev is not None:
+            try:
+                serial = int(prev[6:11]) + 1
+            except ValueError:
+                serial = 0
+            out.append('TER   %5d      %s %s%s%s' % (serial % 100000, prev[17:20], prev[21], prev[22:26], prev[26:27]))
+            if any(l[0:6] in M.ATOM_TAGS for l in lines[k + 1:]):
+                used = True
+            continue
+        if line[0:6] in M.ATOM_TAGS:
+            prev = line
+        out.append(line)
+    return '\n'.join(out) + '\n' if used else None
+
+
 def build_jobs(base, wl, tier, cfg, log):
     rng = random.Random(base * 7919 + 12)
     rng14 = random.Random(base * 7919 + 14)     # F14-F16 draw from their own stream
@@ -119,6 +141,21 @@ def build_jobs(base, wl, tier, cfg, log):
     cases = []
     exhaustive = {}
     full_ids = []
+    # files that get a full-TER-card twin: those in which a protein chain
+    # follows a TER first, then those in which anything does
+    def _ter_rank(inp):
+        starts, fresh = [], True
+        for l in inp['text'].splitlines():
+            if l[0:6] in M.ATOM_TAGS:
+                if fresh and l.startswith('ATOM  '):
+                    starts.append(l[22:26])
+                fresh = False
+            elif l.startswith('TER'):
+                fresh = True
+        return 0 if len(set(starts)) > 1 else (1 if len(starts) > 1 else 2)
+    cands = sorted((c[0] for c in chosen if informative_ter(c[0]['text']) is not None),
+                   key=lambda i: (_ter_rank(i), i['id']))
+    ter_ids = set(i['id'] for i in cands[:tier.get('ter_files', 0)])
     for inp, recs, n, _ in [(c[0], c[1], c[2], None) for c in chosen] + \
             [(m[0], m[1], m[2], None) for m in multis]:
         fid = inp['id']
@@ -146,6 +183,18 @@ def build_jobs(base, wl, tier, cfg, log):
         # the unfaulted file itself (base sanity: the model must agree with it)
         for d in DELIVERIES:
             cases.append([fid, ['F0'], d, []])
+        # the same file with full TER cards (as deposited files have them):
+        # boundary-related losses only
+        tt = informative_ter(inp['text']) if not files[fid]['multiconf'] else None
+        if tt is not None and fid in ter_ids:
+            fid2 = fid + '+ter'
+            files[fid2] = {'text': tt, 'stem': inp['stem'], 'census': True, 'multiconf': False}
+            fl = [f for f in faults if f[0] in ('F1', 'F4', 'F6', 'F7', 'F11', 'F12', 'F13')]
+            exhaustive[fid2] = {'records': n, 'full_TER_cards': True, 'F1': True, 'F4': True, 'F6': True,
+                                'F7': True, 'F11': True, 'F12': True, 'F13': True}
+            for k, fault in enumerate(fl):
+                cases.append([fid2, list(fault), DELIVERIES[k % 3], OPTION_SETS[k % 3 if k % 5 == 0 else 0]])
+            cases.append([fid2, ['F0'], 'stream', []])
     # large fragments (groups that count as buried): single lost records and
     # partial residues only, to bound the cost
     big_tier = {'f3': 0, 'f5': 0, 'f6': 0, 'f9': 0, 'f10': 0, 'f11': 0}
@@ -215,8 +264,10 @@ def build_jobs(base, wl, tier, cfg, log):
 
 # ------------------------------------------------------------------ minimise
 
-def literal_failure(text, stem, delivery, options, expected_pairs, sc, suffix='.pdb'):
-    """Run text through the worker with explicit expectations."""
+def literal_failure(text, stem, delivery, options, expected_pairs, sc, suffix='.pdb', history=None):
+    """Run text through the worker with explicit expectations, in a fresh
+    process; `history` is a list of literal earlier calls
+    [text, stem, delivery, options, suffix] made in that process first."""
     cfg = M.Cfg(driver.REPO)
     recs = M.split_records(text)
     keep_protons = '-k' in options
@@ -234,6 +285,8 @@ def literal_failure(text, stem, delivery, options, expected_pairs, sc, suffix='.
         'import json,sys\n'
         'from sim import c12_worker as W, c12_model as M\n'
         'j=json.load(open(sys.argv[1]))\n'
+        'for k,h in enumerate(j["history"]):\n'
+        '    W.run_case(h[0],h[1],h[2],h[3],j["work"]+"/h%d"%k,h[4])\n'
         'out=W.run_case(j["text"],j["stem"],j["delivery"],j["options"],j["work"],j["suffix"])\n'
         'v=M.judge(out,j["expect_error"],j["expected"])\n'
         'json.dump({"outcome":out,"failure":v,"signature":M.failure_signature(v) if v else None},open(sys.argv[1]+".out","w"))\n')
@@ -242,11 +295,12 @@ def literal_failure(text, stem, delivery, options, expected_pairs, sc, suffix='.
     with open(jp, 'w') as fh:
         json.dump({'text': text, 'stem': stem, 'delivery': delivery, 'options': options,
                    'work': wd, 'suffix': suffix, 'expect_error': expect_error,
-                   'expected': expected}, fh)
+                   'expected': expected, 'history': history or []}, fh)
     try:
         r = subprocess.run([driver.PY, '-c', code, jp], env=driver.worker_env(0, sc),
                            stdin=subprocess.DEVNULL, stdout=subprocess.DEVNULL,
-                           stderr=subprocess.PIPE, text=True, errors='replace', timeout=180, cwd='/')
+                           stderr=subprocess.PIPE, text=True, errors='replace',
+                           timeout=180 + 2 * len(history or []), cwd='/')
         if r.returncode != 0 or not os.path.exists(jp + '.out'):
             return {'harness_error': r.stderr[-2000:]}
         with open(jp + '.out') as fh:
@@ -329,6 +383,29 @@ def minimise(text, stem, delivery, options, expected_pairs, signature, sc, log, 
     return out, tests[0]
 
 
+def minimise_history(history, fails, log, wall=120):
+    """ddmin over the earlier calls of a history-dependent failure."""
+    deadline = time.time() + wall
+    tests = 0
+    n = 2
+    while len(history) >= 1 and time.time() < deadline:
+        n = min(n, len(history))
+        size = max(1, len(history) // n)
+        cands = [history[:a] + history[a + size:] for a in range(0, len(history), size)]
+        res = driver.pool_map(fails, cands)
+        tests += len(cands)
+        hit = [c for c, r in zip(cands, res) if r]
+        if hit:
+            history = min(hit, key=len)
+            n = max(2, n - 1)
+        elif size == 1:
+            break
+        else:
+            n = min(len(history), n * 2)
+    log('history minimised to %d earlier calls in %d tests' % (len(history), tests))
+    return history, tests
+
+
 def known_match(findings, sig):
     for f in findings.get('findings', []):
         if f.get('property') == PID and f.get('signature') == sig:
@@ -340,7 +417,7 @@ def replay(path, sc):
     with open(path) as fh:
         rp = json.load(fh)
     r = literal_failure(rp['text'], rp['stem'], rp['delivery'], rp['options'],
-                        rp['expected_pairs'], sc, rp.get('suffix', '.pdb'))
+                        rp['expected_pairs'], sc, rp.get('suffix', '.pdb'), history=rp.get('history'))
     if 'harness_error' in r:
         print('HARNESS-ERROR: ' + r['harness_error'])
         return 2
@@ -363,7 +440,7 @@ def regressions(sc, log):
             with open(os.path.join(d, f)) as fh:
                 rp = json.load(fh)
             r = literal_failure(rp['text'], rp['stem'], rp['delivery'], rp['options'],
-                                rp['expected_pairs'], sc, rp.get('suffix', '.pdb'))
+                                rp['expected_pairs'], sc, rp.get('suffix', '.pdb'), history=rp.get('history'))
             out['replayed'] += 1
             if 'harness_error' in r:
                 raise driver.HarnessError('replay of %s failed: %s' % (f, r['harness_error'][-500:]))
@@ -433,7 +510,7 @@ def main(argv=None):
         agg = {'cases': 0, 'by_kind': {}, 'expected_errors': 0, 'census_checked': 0,
                'labels_checked': 0, 'deliveries': {}, 'options': {}}
         digests, nontriv, states, failures = set(), set(), set(), []
-        for o in outs:
+        for ji, o in enumerate(outs):
             for k in ('cases', 'expected_errors', 'census_checked', 'labels_checked'):
                 agg[k] += o[k]
             for k in ('by_kind', 'deliveries', 'options'):
@@ -444,6 +521,8 @@ def main(argv=None):
                 if not triv:
                     nontriv.add(dg)
             states.update(o['states'])
+            for f in o['failures']:
+                f['job'] = ji
             failures += o['failures']
         log('%d cases run, %d failures' % (agg['cases'], len(failures)))
         findings = driver.load_findings()
@@ -475,12 +554,37 @@ def main(argv=None):
             if 'harness_error' in conf:
                 print('HARNESS-ERROR: ' + conf['harness_error'][-1500:])
                 return 2
+            history = None
             if conf['failure'] is None or conf['signature'] != f['signature']:
-                print('HARNESS-ERROR: failure %s on %s %s did not reproduce in a fresh process'
-                      % (sig, f['file'], f['fault']))
-                return 2
+                # not a function of this input alone: replay the calls made
+                # earlier in the same worker process (a history-dependent failure
+                # is still an unhandled error on an incomplete structure)
+                history = []
+                if f.get('job') is not None and f.get('case') is not None:
+                    for c in jobs[f['job']]['cases'][:f['case']]:
+                        hf = files[c[0]]
+                        hrecs = M.split_records(hf['text'])
+                        hfault = tuple(c[1]) if c[1][0] != 'F5' else ('F5', [tuple(x) for x in c[1][1]])
+                        hkeep, _ = M.apply_fault(hrecs, hfault)
+                        history.append([M.render(hrecs, hkeep), hf['stem'], c[2], c[3], hf.get('suffix', '.pdb')])
+
+                def hfails(h):
+                    r = literal_failure(text, fobj['stem'], f['delivery'], f['options'], pairs, sc,
+                                        fobj.get('suffix', '.pdb'), history=h)
+                    return ('harness_error' not in r and r['failure'] is not None
+                            and r['signature'] == f['signature'])
+                if not history or not hfails(history):
+                    print('HARNESS-ERROR: failure %s on %s %s reproduced neither in a fresh process nor after '
+                          'the %d earlier calls of its worker' % (sig, f['file'], f['fault'], len(history)))
+                    return 2
+                history, htests = minimise_history(history, hfails, log)
+                conf = literal_failure(text, fobj['stem'], f['delivery'], f['options'], pairs, sc,
+                                       fobj.get('suffix', '.pdb'), history=history)
+                if 'harness_error' in conf or conf['failure'] is None:
+                    print('HARNESS-ERROR: minimised history of %s does not reproduce' % sig)
+                    return 2
             mtext, tests = text, 0
-            if nviol < tier['max_min'] and not fobj.get('expect_error'):
+            if history is None and nviol < tier['max_min'] and not fobj.get('expect_error'):
                 mtext, tests = minimise(text, fobj['stem'], f['delivery'], f['options'], pairs,
                                         f['signature'], sc, log)
             path = driver.replay_path(PID, '%s-%s' % (f['file'].replace(':', '_'), '_'.join(
@@ -492,10 +596,17 @@ def main(argv=None):
                            'stem': fobj['stem'], 'suffix': fobj.get('suffix', '.pdb'),
                            'signature': f['signature'], 'failure': conf['failure'],
                            'occurrences': len(lst), 'minimisation_tests': tests,
-                           'expected_pairs': pairs, 'text': mtext}, fh, indent=1)
+                           'expected_pairs': pairs, 'text': mtext,
+                           'history': history or [],
+                           'history_note': ('the failure needs the listed earlier calls in the same process'
+                                            if history else 'none: a function of this input alone')},
+                          fh, indent=1)
             print('VIOLATION property=%s replay=%s' % (PID, path))
             print('  %s  (%d cases with this signature; first: file=%s fault=%s delivery=%s options=%s)'
                   % (conf['failure']['detail'], len(lst), f['file'], f['fault'], f['delivery'], f['options']))
+            if history:
+                print('  history-dependent: needs %d earlier call(s) in the same process (in the replay file)'
+                      % len(history))
             samples_fail.append({'file': f['file'], 'fault': f['fault'], 'signature': f['signature']})
             nviol += 1
         for p in regress['reproduced']:
